@@ -35,6 +35,7 @@ structure St where
   nowNs : Int                                   -- steady clock of the harness
   peers : List (String × Bytes)                 -- peer name ↦ session key
   offered : List (Bytes × Nat × List Nat)       -- chunk id ↦ (threshold, shard indices) of every manifest seen
+  strings : List Bytes := []                    -- endpoint strings a peer has supplied (announce endpoints, manifest hint endpoints)
 
 def vclockStart : Int := 1000000000000
 def wallOffset : Int := 1700000000000000000
@@ -42,7 +43,7 @@ def minTtlSeconds : Int := 30
 def maxLine : Nat := 16384
 def streamCap : Nat := 1048576
 
-def init : St := { nowNs := vclockStart, peers := [], offered := [] }
+def init : St := { nowNs := vclockStart, peers := [], offered := [], strings := [] }
 
 /-! ### site names (as written by the extractor) -/
 def siteRecvCombine := "Node::receive_chunk>crypto::Shamir::combine#0:invalid_argument"
@@ -52,6 +53,49 @@ def siteFetchDecode := "daemon::ControlServer::Impl::handle_fetch>protocol::deco
 def siteFetchAbsolute := "daemon::ControlServer::Impl::handle_fetch>std::filesystem::absolute#0:filesystem_error"
 def siteWriteFs := "daemon::ControlServer::Impl::handle_fetch>daemon::write_file_bytes#0:filesystem_error"
 def siteWriteRt := "daemon::ControlServer::Impl::handle_fetch>daemon::write_file_bytes#0:runtime_error"
+def siteNodeStoulRange := "parse_endpoint>std::stoul#0:out_of_range"
+def siteNodeStoulInvalid := "parse_endpoint>std::stoul#0:invalid_argument"
+def siteRelayStoulRange := "network::parse_endpoint>std::stoul#0:out_of_range"
+def siteRelayStoulInvalid := "network::parse_endpoint>std::stoul#0:invalid_argument"
+
+/-- what `std::stoul(text)` (base 10, `unsigned long` = 64 bits) does: leading white space and one sign are
+    skipped; no digit ⇒ `invalid_argument`; a magnitude above 2^64−1 ⇒ `out_of_range` (also with a minus sign) -/
+inductive Stoul where | value | invalid | range
+deriving DecidableEq
+
+def stoulClass (text : Bytes) : Stoul :=
+  let isSpace := fun (b : UInt8) => b == 32 || (9 ≤ b.toNat && b.toNat ≤ 13)
+  let t := text.dropWhile isSpace
+  let t := match t with
+    | b :: rest => if b == 43 || b == 45 then rest else t
+    | [] => t
+  let digits := t.takeWhile fun b => 48 ≤ b.toNat && b.toNat ≤ 57
+  if digits.isEmpty then .invalid
+  else if digits.foldl (fun acc b => acc * 10 + (b.toNat - 48)) 0 > 18446744073709551615 then .range
+  else .value
+
+/-- `parse_endpoint` of Node.cpp: split at the *last* ':'; both parts non-empty; then `stoul(port)` -/
+def nodeEndpointSites (e : Bytes) : List String :=
+  if e.isEmpty || !e.contains 58 then [] else
+  let port := (e.reverse.takeWhile (· != 58)).reverse
+  let host := (e.reverse.dropWhile (· != 58)).drop 1
+  if host.isEmpty || port.isEmpty then [] else
+  match stoulClass port with
+  | .range => [siteNodeStoulRange]
+  | .invalid => [siteNodeStoulInvalid]
+  | .value => []
+
+/-- `parse_relay_endpoint` / `parse_endpoint` of RelayClient.cpp: cut at '?', split at the *first* ':' -/
+def relayEndpointSites (e : Bytes) : List String :=
+  let addr := e.takeWhile (· != 63)
+  if !addr.contains 58 then [] else
+  let host := addr.takeWhile (· != 58)
+  let port := (addr.dropWhile (· != 58)).drop 1
+  if host.isEmpty || port.isEmpty then [] else
+  match stoulClass port with
+  | .range => [siteRelayStoulRange]
+  | .invalid => [siteRelayStoulInvalid]
+  | .value => []
 
 /-- the specification's verdict on the implementation's line, naming the boundary the delivery entered:
     `viol:escape-<boundary>:<class>` -/
@@ -177,7 +221,8 @@ def components (p : Bytes) : List Bytes :=
 /-! ### one op -/
 
 def recordOffer (st : St) (m : Manifest.Manifest) : St :=
-  { st with offered := (m.chunkId, m.threshold.toNat, idxOfShards m) :: st.offered }
+  { st with offered := (m.chunkId, m.threshold.toNat, idxOfShards m) :: st.offered,
+            strings := m.discovery.map (·.endpoint) ++ st.strings }
 
 def stepFrame (st : St) (peer : String) (plainHex : String) (impl : Option String) : St × String × String :=
   match st.peers.lookup peer, bytesOfHex plainHex with
@@ -189,6 +234,7 @@ def stepFrame (st : St) (peer : String) (plainHex : String) (impl : Option Strin
       match msg.payload with
       | .announce a =>
         if msg.type != 1 then (st, predict "reader-thread" [] ++ tail, judge) else
+        let st := { st with strings := a.endpoint :: st.strings }
         let sender : Bytes := (id32 peer).map UInt8.ofNat
         match Manifest.decodeManifest a.manifestUri with
         | .ok m => (recordOffer st m, predict "reader-thread" [] ++ tail, judge)
@@ -274,7 +320,28 @@ def step (st : St) (tok : List String) (_line : String) (impl : Option String) :
     else (st, "bad-op:unknown-peer", "ok")
   | ["hs", _raw] => (st, predict "transport-accept-thread" [] ++ echoTail impl, judgeAt "transport-accept-thread" impl)
   | ["ctl", raw] => stepCtl st raw impl
-  | ["tick"] => (st, predict "main-loop-tick" [] ++ echoTail impl, judgeAt "main-loop-tick" impl)
+  | ["tick"] =>
+    -- the fetch retries of this tick dial what peers announced: every due fetch without a live session parses its
+    -- announced endpoint (Node's parse_endpoint) and, when a RelayClient exists, the relay hints of its manifest
+    let due := (impl.bind (field · "due")).getD "-"
+    let relay := (impl.bind (field · "relay")) == some "1"
+    let entries := if due == "-" then [] else due.splitOn ","
+    let parsed := entries.map fun ent =>
+      match ent.splitOn ":" with
+      | [_, ep, hints] =>
+        let e := (bytesOfHex ep).getD []
+        let hs := if hints == "-" then [] else (hints.splitOn "+").map fun h => (bytesOfHex h).getD []
+        some (e, hs)
+      | _ => none
+    if parsed.any (·.isNone) then (st, "bad-due-hint" ++ echoTail impl, judgeAt "main-loop-tick" impl) else
+    let items := parsed.filterMap id
+    let known := items.all fun (e, hs) => (e.isEmpty || st.strings.contains e) && hs.all fun h => h.isEmpty || st.strings.contains h
+    if !known then (st, "hint-not-among-offered-endpoints" ++ echoTail impl, judgeAt "main-loop-tick" impl) else
+    let fired := items.flatMap fun (e, hs) =>
+      let own := nodeEndpointSites e
+      -- an endpoint that parses is dialled (and refused); only then, or without one, the relay hints are tried
+      own ++ (if relay then hs.flatMap relayEndpointSites else [])
+    (st, predict "main-loop-tick" fired ++ echoTail impl, judgeAt "main-loop-tick" impl)
   | ["rt", "stall"] =>
     -- one stalling client ahead of a well-behaved one, on each accept loop; the expectation follows the
     -- timeout flags regenerated from the source (`Escape.servedBehindSilent` / `servedBehindDeaf`)
